@@ -67,3 +67,11 @@ package ast
 //@ func New [C01]
 //@   ensures [meta-of-token] result != nil && fresh(result) && result.Token.Type == t.Type && result.Token.Line == t.Line && result.Token.Position == t.Position && result.Token.Literal == t.Literal
 //@   assigns idCounter
+
+// C09: the rendering of a literal or identifier (String(): the source text WITH the comments attached
+// to the node) is for printing; code that decides something takes the node's Value. Static call-site scan:
+// only the listed functions (renderers of enclosing nodes, the formatter, message builders) may call it.
+//@ func (*Integer).String [C09]
+//@   callers [C09] String format*
+//@ func (*Ident).String [C09]
+//@   callers [C09] String format* runDescribedTests
